@@ -637,6 +637,44 @@ pub fn run(session: &Session) -> i32 {
         let mut texts: Vec<String> = STATEFUL.iter().map(|t| t.to_string()).collect();
         texts.extend(ORDER_SENSITIVE.iter().map(|t| t.to_string()));
         let mut cases = vec![json!({"kind": "history", "texts": texts, "rounds": 4})];
+        // after work that failed: programs that end in each run-time error many calls deep, inside
+        // iterator helpers, inside a loop, while a cell is being updated and while a file is being
+        // imported, followed by programs that succeed along the same paths - 12 rounds on one thread
+        // (whatever an abandoned execution leaves behind adds up)
+        {
+            let failing = [
+                "f := (n: int) -> int { if n == 0 { return [1][5]; } return f(n - 1) + 1; }; f(90)",
+                "f := (n: int) -> int { if n == 0 { return 1 / (n - n); } return f(n - 1) + 1; }; f(80)",
+                "f := (n: int) -> int { if n == 0 { return 1 << (n + 64); } return f(n - 1) + 1; }; f(70)",
+                "f := (n: int) -> [int] { if n == 0 { return [0; n - 1]; } return f(n - 1); }; f(60)",
+                "[3, 2, 1, 0]~ @ (x: int) -> int { return 6 / x; } $]",
+                "[1, 2, 3]~ ? (x: int) -> bool { return [true][x]; } $]",
+                "[1, 2, 0]~ $ 100 (a: int, x: int) -> int { return a % x; }",
+                "c := mut 8; k := mut 0; while *k < 5 { k += 1; c /= 3 - *k; }; *c",
+                "c := mut 1; for x in [1, 2, 64]~ { c <<= x; }; *c",
+                "g := (n: int) -> int { if n == 0 { return 2 ** (n - 1); } return g(n - 1) * 2; }; [g(50)]",
+                "m := mod { a := 1; b := [a][a]; }; m.a",
+            ];
+            let succeeding = [
+                "f := (n: int) -> int { if n == 0 { return [1][0]; } return f(n - 1) + 1; }; f(150)",
+                "f := (n: int) -> int { if n == 0 { return 0; } return f(n - 1) + 1; }; (f(100), f(120))",
+                "[3, 2, 1]~ @ (x: int) -> int { return 6 / x; } $]",
+                "[1, 2, 3]~ ? (x: int) -> bool { return [false, true, false, true][x]; } $]",
+                "c := mut 8; k := mut 0; while *k < 2 { k += 1; c /= 3 - *k; }; *c",
+                "g := (n: int) -> int { if n == 0 { return 1; } return g(n - 1) * 2; }; [g(50)]",
+                "m := mod { a := 0; b := [a][a]; }; m.b",
+                "odd := (k: int, ev: (int) -> int) -> int { if k <= 0 { return 0; } return 1 + ev(k - 1); }; even := (k: int) -> int { if k <= 0 { return 0; } return 1 + odd(k - 1, even); }; even(140)",
+            ];
+            let mut texts: Vec<String> = vec![];
+            for (k, f) in failing.iter().enumerate() {
+                texts.push(f.to_string());
+                texts.push(succeeding[k % succeeding.len()].to_string());
+            }
+            cases.push(json!({"kind": "history", "texts": texts, "rounds": 12}));
+            let mut texts: Vec<String> = failing.iter().map(|t| t.to_string()).collect();
+            texts.extend(succeeding.iter().map(|t| t.to_string()));
+            cases.push(json!({"kind": "history", "texts": texts, "rounds": 12}));
+        }
         for x in 0..CATALOGUE.len() {
             // every unary cell of one operand type, each called on a value of the type
             let texts: Vec<String> = (0..UNARY.len()).map(|t| matrix_call(x, t, t)).collect();
